@@ -25,9 +25,10 @@ Default == [owner |-> "a1", attMgr |-> "a2", pauser |-> "a3", tokCtl |-> "a1",
             pairs |-> <<[d |-> "d1", t |-> B("j", "t1"), denom |-> MINT]>>, used |-> <<[d |-> "d1", n |-> 0]>>,
             msgrs |-> <<[d |-> "d1", addr |-> B("j", "m1")]>>]
 
-Scalars == [owner : {"a1", "EMPTY", "GARBAGE"}, bm : {-1, 0, 1}, sr : {-1, 0}, maxBody : {-1, 200}, nextNonce : {-1, 3},
+Scalars == [owner : {"a1", "EMPTY", "GARBAGE"}, attMgr : {"a2", "BAD_CHECKSUM"}, bm : {-1, 0, 1}, sr : {-1, 0}, maxBody : {-1, 200}, nextNonce : {-1, 3},
             threshold : {-1, 0, 1, 2}]
-WithScalars(x, sc) == [x EXCEPT !.owner = sc.owner, !.bm = sc.bm, !.sr = sc.sr, !.maxBody = sc.maxBody,
+WithScalars(x, sc) == [x EXCEPT !.owner = sc.owner, !.attMgr = IF sc.owner = "GARBAGE" THEN "a2" ELSE sc.attMgr,
+                                 !.pauser = IF sc.owner = "EMPTY" THEN sc.attMgr ELSE "a3", !.bm = sc.bm, !.sr = sc.sr, !.maxBody = sc.maxBody,
                                  !.nextNonce = sc.nextNonce, !.threshold = sc.threshold]
 \* one list varies at a time over all sequences up to MaxLen (so every collision pattern of that list occurs)
 ListVariants ==
